@@ -818,34 +818,48 @@ class TaskScenario(ScenarioData):
         else:
             seconds_into_slot = slot_duration_seconds
 
-        # Clamp to slot duration (shouldn't exceed, but safety check)
-        seconds_into_slot = min(seconds_into_slot, slot_duration_seconds)
+        # Seconds this task had booked in the final slot. Normally that is the whole slot; it is
+        # less when the task took over a slot that was already partly used (mid-slot start after
+        # a predecessor, or the tail another task released).
+        booked_seconds = slot_duration_seconds
+        res_scenario = None
+        if resource:
+            res_scenario = resource.data[self.scenarioIdx] if resource.data else None
+            if res_scenario:
+                for booked_task, booked_secs in res_scenario.slotTaskUsage.get(self.currentSlotIdx, []):
+                    if booked_task == self.property:
+                        booked_seconds = booked_secs
+
+        # Clamp to what was booked (shouldn't exceed, but safety check)
+        seconds_into_slot = min(seconds_into_slot, booked_seconds)
+
+        # The part of the slot that was already taken when this task booked it
+        seconds_taken_before = slot_duration_seconds - booked_seconds
 
         # Calculate the precise end time, rounded to nearest second
         # (Gold standard uses second-level precision)
         seconds_rounded = round(seconds_into_slot)
 
         if forward:
-            # For forward scheduling, end time is offset from slot start
+            # For forward scheduling, end time is offset from where this task's portion begins
             if slot_start is not None:
-                precise_end = slot_start + timedelta(seconds=seconds_rounded)
+                precise_end = slot_start + timedelta(seconds=seconds_taken_before) + timedelta(seconds=seconds_rounded)
             else:
                 precise_end = self.project["start"] + timedelta(seconds=seconds_rounded)
         else:
             # For backward scheduling, we're calculating the START time
-            # The start is at the END of the slot minus unused time
+            # The task's portion ends where the already taken part of the slot begins
             # If we used the whole slot, start is at slot_start
             # If we used part of it, start is later in the slot
             if slot_start is not None:
                 slot_end = slot_start + timedelta(seconds=slot_duration_seconds)
-                precise_end = slot_end - timedelta(seconds=seconds_rounded)
+                precise_end = slot_end - timedelta(seconds=seconds_taken_before) - timedelta(seconds=seconds_rounded)
             else:
                 precise_end = self.project["start"]
 
-        # Release unused portion of the slot back to the resource
-        seconds_unused = slot_duration_seconds - seconds_into_slot
+        # Release unused portion of the booking back to the resource
+        seconds_unused = booked_seconds - seconds_into_slot
         if seconds_unused > 0 and resource:
-            res_scenario = resource.data[self.scenarioIdx] if resource.data else None
             if res_scenario:
                 # Update the per-task usage record to reflect actual usage
                 if self.currentSlotIdx in res_scenario.slotTaskUsage:
@@ -856,12 +870,9 @@ class TaskScenario(ScenarioData):
                             break
 
                 # Update total slotSecondsUsed to release unused time
-                # Old value was full slot duration, new value is actual usage
                 old_total = res_scenario.slotSecondsUsed.get(self.currentSlotIdx, slot_duration_seconds)
-                # Subtract what was previously booked (full slot) and add actual usage
-                res_scenario.slotSecondsUsed[self.currentSlotIdx] = (
-                    old_total - slot_duration_seconds + seconds_into_slot
-                )
+                # Subtract what this task had booked and add its actual usage
+                res_scenario.slotSecondsUsed[self.currentSlotIdx] = old_total - booked_seconds + seconds_into_slot
 
         return precise_end, seconds_into_slot
 
